@@ -223,6 +223,15 @@ def r5(ctx):
     law_self_first(ctx)
 
 
+def r7_recurse_call_shapes(ctx):
+    """The call-shape laws of the rewriter, as far as they concern recurse / the function's own name."""
+    from .rewriter import law_call_shapes
+
+    n0 = len(ctx.obs)
+    law_call_shapes(ctx)
+    ctx.obs[n0:] = [o for o in ctx.obs[n0:] if "starred-call_next" not in o.construct and "bare-call_next" not in o.construct]
+
+
 def _more(name):
     def run(ctx):
         from . import more
